@@ -1038,6 +1038,8 @@ class SymEval:
                     'max': lambda *a, **k: self._scripted_minmax(False, a, k, p, n) if self._scriptable(a, k) else _minmax(sp.Max, max, a, k, lambda v: self.iterate(v, n)), 'list': lambda *a: list(self.iterate(a[0], n)) if a else [], 'tuple': lambda *a: tuple(self.iterate(a[0], n)) if a else (),
                     'isinstance': lambda *a: Opaque, 'complex': lambda a, b=0: a + sp.I * b, 'round': lambda x, n=0: x,
                     'zip': lambda *a: list(zip(*[self.iterate(x, n) for x in a])), 'enumerate': lambda a, start=0: list(enumerate(self.iterate(a, n), int(start))), 'str': str}[n.id]
+        if n.id == 'object':
+            return object
         if n.id == 'iter':
             return lambda x: _ModelIter(self.iterate(x, n))
         if n.id == 'next':
@@ -1496,6 +1498,11 @@ class SymEval:
             return list(it)
         if isinstance(it, str):
             return list(it)
+        if isinstance(it, (int, float, bool)) or it is None or (isinstance(it, sp.Basic) and (it.is_number or it.is_Symbol)):
+            # a plain number is not iterable
+            if self.try_depth > 0:
+                raise _PyRaise('TypeError')
+            raise WouldRaise('TypeError: %s is not iterable' % norm(node))
         raise Opaque('loop over non-literal iterable ' + norm(node))
 
     def e_Attribute(self, n, p):
@@ -1692,6 +1699,15 @@ class SymEval:
     def e_Subscript(self, n, p):
         base = self.ev(n.value, p)
         idx = self.index(n.slice, p)
+        if isinstance(base, OpaqueFn) and base.name in ('numpy.r_', 'numpy.c_') and not any(isinstance(i, (slice, str)) for i in (idx if isinstance(idx, tuple) else (idx,))):
+            # numpy.r_[a, b, ...]: scalars and one-dimensional arrays joined end to end (numpy.c_ of one-dimensional pieces: the same values as columns)
+            items = idx if isinstance(idx, tuple) else (idx,)
+            parts = [np.ravel(np.asarray(i, dtype=object)) if (is_arr(i) and i.dtype == object) or isinstance(i, sp.Basic) else np.ravel(np.asarray(i)) for i in items]
+            if base.name == 'numpy.r_' and all(np.ndim(i) <= 1 for i in items):
+                if all(q.dtype == bool for q in parts):
+                    return np.concatenate(parts)
+                return np.concatenate([q.astype(object) for q in parts])
+            raise Opaque('index-trick expression outside the model: ' + norm(n))
         try:
             if isinstance(base, PyStub):
                 return base[idx]
